@@ -189,6 +189,29 @@ TABLE = {
     ),
 }
 
+# clauses added after the second round of independently seeded changes (DESIGN.md 8.6); appended to the decided text
+ROUND2 = {
+    'C01': 'Inv-C: whenever a todo set grows the node is on the queue when the function returns, and every queue rebuild keeps nodes with pending targets',
+    'C03': 'jobs leave the dispatch batch only per job or in farm.clear; every step of the cloud hiring exchange continues, hires or hands the job back; '
+    'doing shrinks only where the reply is applied (ONE known finding: purge strips doing of executing dependents) and queue rebuilds keep queued entries',
+    'C04': 'the idle observers re-read the live binding on every poll',
+    'C05': "the worker's try around Context.run catches BaseException",
+    'C06': "the server's set branch stores the blob name unconditionally between move and the reply",
+    'C08': 'util.append stores into the persisted table before it extends the in-memory index',
+    'C09': 'no module on the naming / graph path captures a run-time-assigned dawgie.context setting at import time',
+    'C10': 'every db.archive implementation delivers the continuation exactly once; while a background step is outstanding every trigger with an edge '
+    'from that state is refused as the first effect of its before-callback or, if accepted, the machine settles at rest after all steps (exception semantics modelled)',
+    'C12': 'pollers re-read the live state per iteration; FSM.reset is called only by the constructor and the reload edge; an unknown priority text reaches the documented fallback',
+    'C13': 'nothing that can raise is called between taking the lock and answering the client (callees followed two levels)',
+    'C14': 'no receive loop consumes a local copy of a buffer that a phase reached from the loop also writes',
+    'C15': 'every work-set assignment stores a container constructed for that node',
+    'C16': 'each rule_NN makes the observations recorded for it (table); main puts the root of --ae-dir at the front of sys.path before scanning',
+    'C17': 'the SQL range terms are half open with one placeholder per pushed bound; front-end callers of find hand the page on unreordered',
+    'C18': 'the history read path keeps no state between calls; complete reads no reply-dependent timing key before the journal entry is written',
+    'C19': 'the certificate handed to sanctioned keeps the None marker of an anonymous caller',
+    'C20': "the monthly (year, month) candidate is this or next month with an exact year carry for all 12 months; a due event's node is queued on every path; every timer is armed with a wrapper constructed for it",
+}
+
 # properties whose module is finished, reviewed and clean on the tree
 READY = sorted(TABLE)
 CLAIMED = sorted(k for k in READY if k in TABLE and os.path.exists(os.path.join(HERE, 'sa', 'rules', k.lower() + '.py')))
@@ -203,6 +226,8 @@ def main():
     checks = []
     for pid in CLAIMED:
         tech, dec, nd = TABLE[pid]
+        if pid in ROUND2:
+            dec = dec + '; ' + ROUND2[pid]
         checks.append(
             {
                 'property_id': pid,
